@@ -130,12 +130,12 @@ theorem outTriples_worldOf (D args edges comp) (tbl : List (Vid × List QField))
   have : tblLookup tbl q.1 = q.2 := tblLookup_of_mem hn (w := q.1) (fs := q.2) hq
   simp [worldOf, this]
 
-/-- **Fragments F0/F1**: a query whose edges are plain or `@optional`, accepted by the frontend,
-under `Hyps`: the interpreter on the frontend's IR and the declarative semantics succeed on the
+/-- **Fragments F0/F1/F2**: a query whose edges are plain, `@optional` or `@recurse`, accepted by
+the frontend, under `Hyps`: the interpreter on the frontend's IR and the declarative semantics succeed on the
 same inputs, with the same rows in the same order. -/
-theorem interp_eq_spec_F1_core (S : SchemaView) (q : Query) (ir : IRQuery) (D : Data)
-    (args : List (Name × Value)) (edges : List EdgeDecl) (lim : Bool)
-    (h : toIR S q = .ok ir) (hfrag : fragNode q.root ≤ 1) (hh : Hyps ⟨S, D, args, edges⟩ 1 q) :
+theorem interp_eq_spec_core (S : SchemaView) (q : Query) (ir : IRQuery) (D : Data)
+    (args : List (Name × Value)) (edges : List EdgeDecl) (lim : Bool) (frag : Nat) (hfr : frag ≤ 2)
+    (h : toIR S q = .ok ir) (hfrag : fragNode q.root ≤ frag) (hh : Hyps ⟨S, D, args, edges⟩ frag q) :
     (interpret { Env.ofData D args with useLimits := lim } ir).toOption =
       (Spec.rows ⟨D, args, edges⟩ q).toOption := by
   obtain ⟨root, rootParams, acc, st1, comp, evs, st2, vars, hroot, hrp, hfill, hfin, _, _, hnames,
@@ -192,7 +192,7 @@ theorem interp_eq_spec_F1_core (S : SchemaView) (q : Query) (ir : IRQuery) (D : 
     exact find?_vertex_of_mem (vs := vs) (V := ⟨r.vid, r.typeName, r.coercedFrom, fs⟩)
       (by rw [hvsk]; exact hnd) hmem
   have hcert : NodeCert W q.root 1 [] acc.edges (keysT tbl) := by
-    have := (cert_fill S ⟨S, D, args, edges⟩ rfl W rfl rfl rfl st1.tags (keysT tbl) tbl G).1
+    have := (cert_fill S ⟨S, D, args, edges⟩ rfl W rfl rfl rfl st1.tags (keysT tbl) tbl G frag hfr).1
       _ _ _ _ _ _ _ hfill [] [] hnode (by simp [hkeys']) (fun p hp => hp) hHV
     rw [hkeys'] at this
     exact this
